@@ -58,7 +58,15 @@ def reduce_cases(draw, tier="quick", funcs=FUNCS, nplans=3, allow_blockwise=True
     else:
         dt = draw(st.sampled_from(["<f8", "<f8", "<f8", "<f4", "<i8", "<i8", "|i1", "<u8", "|u1", "|b1", "<i4"]))
     by_ndim = draw(st.sampled_from([1, 1, 1, 2]))
-    if by_ndim == 1:
+    big = by_ndim == 1 and max_n >= 24 and draw(st.integers(0, 5)) == 0
+    big_chunks = None
+    if big:
+        # many blocks / many groups: cohort merging, multi-level trees, non-trivial block subsets
+        nblk = draw(st.integers(9, 20))
+        big_chunks = [draw(st.sampled_from([1, 2, 2, 3])) for _ in range(nblk)]
+        n = sum(big_chunks)
+        by_shape = [n]
+    elif by_ndim == 1:
         n = draw(st.integers(2, max_n))
         by_shape = [n]
     else:
@@ -67,7 +75,7 @@ def reduce_cases(draw, tier="quick", funcs=FUNCS, nplans=3, allow_blockwise=True
     batch = draw(st.sampled_from([[], [], [2], [3], [1]]))
     nb = int(np.prod(batch)) if batch else 1
     vals = gen.draw_values(draw, n * nb, dt, func)
-    lab = gen.draw_labels(draw, n, styles=label_styles, allow_all_missing=all_missing_ok)
+    lab = gen.draw_labels(draw, n, styles=label_styles, allow_all_missing=all_missing_ok, max_groups=10 if big else 6)
     lab["spec"]["sh"] = by_shape
     shape = batch + by_shape
     case = {"arr": {"dt": dt, "sh": shape, "v": vals}, "by": lab["spec"], "func": func}
@@ -107,6 +115,8 @@ def reduce_cases(draw, tier="quick", funcs=FUNCS, nplans=3, allow_blockwise=True
 
     # chunking of every axis
     chunks = [gen.draw_chunks(draw, s, max_blocks=8) for s in shape]
+    if big_chunks is not None:
+        chunks[-1] = big_chunks
     by_dask = draw(st.integers(0, 3)) == 0
     by_chunks = None
     if by_dask:
